@@ -46,7 +46,23 @@ def check_add(s, r1="C06.1", r2="C06.2"):
     idx_ref = nz.canon(s.ref(b, "self.position % self.size", {"self": self_}))
     seen = set()
     for p in live(s.paths(b, "ReplayBuffer", "add")):
-        has_states = any(v for t, v in p.conds)
+        # which optional (policy-state) fields does this path take as present? read it off the `... is (not) None` tests
+        present = {}
+        for t, v in p.conds:
+            if not (isinstance(t, tuple) and t[0] == "cmp" and t[1] in ("Is", "IsNot") and t[3] == NONE):
+                continue
+            subj = t[2]
+            fld = None
+            if isinstance(subj, tuple) and subj[0] == "attr" and subj[1] == self_ and subj[2] in ("states", "next_states"):
+                fld = subj[2]
+            elif isinstance(subj, tuple) and subj[0] == "call" and subj[1] == ("global", "getattr") and len(subj[2]) == 2 and subj[2][0] == self_ \
+                    and subj[2][1][0] == "const" and subj[2][1][1] in ("states", "next_states"):
+                fld = subj[2][1][1]
+            if fld is not None:
+                present[fld] = (t[1] == "IsNot") == bool(v)
+        if len(set(present.values())) > 1:
+            continue  # states present but next_states None (or vice versa): the constructor allocates both or neither
+        has_states = any(present.values()) if present else any(v for t, v in p.conds)
         seen.add(has_states)
         tag = f"[states={'present' if has_states else 'None'}]"
         if not (isinstance(p.ret, tuple) and p.ret[0] == "update" and p.ret[1] == self_):
@@ -91,6 +107,69 @@ def check_add(s, r1="C06.1", r2="C06.2"):
         raise AnalysisError(f"{con}: expected the cases states present / None")
 
 
+def check_sample(s, r3="C06.3", r4="C06.4"):
+    """ReplayBuffer.sample: valid mask from the fill level (per environment, env-major), choice without replacement, one index node."""
+    P = s.prog
+    self_ = ("param", "self")
+    # ------------------------------------------------------------------ sample
+    con3 = "ReplayBuffer.sample"
+    loc3 = s.loc("ReplayBuffer", "sample")
+    b3 = s.builder(inline={"current_size"})
+    nz3 = Normalizer(b3)
+    cases = set()
+    for p in live(s.paths(b3, "ReplayBuffer", "sample")):
+        scalar = None
+        for t, v in p.conds:
+            scalar = v
+        cases.add(scalar)
+        # no case split: one formula serves both layouts; the per-environment form subsumes the scalar one
+        # (current_size[..., None] of a scalar has shape (1,), which broadcasts to the same mask)
+        tag = "[scalar fill level]" if scalar else ("[per-environment fill levels]" if scalar is False else "[uniform formula for scalar and per-environment fill levels]")
+        r = p.ret
+        ok = isinstance(r, tuple) and r[0] == "call" and r[1] == ("global", "jax.tree.map") and len(r[2]) == 2 and isinstance(r[2][0], Closure)
+        s.ob(r3, con3 + tag, ok, "the batch is jax.tree.map(take, flattened buffer)", loc3, key="sample-shape", detail=show(r, maxlen=200))
+        if not ok:
+            continue
+        flat = r[2][1]
+        s.ob(r3, con3 + tag, flat == ("call", ("attr", self_, "flatten_axes"), (("const", None),), ()),
+             "the sampled tree is self.flatten_axes(None) (all (env, slot) axes merged)", loc3, key="flat-source", detail=show(flat, maxlen=120))
+        leaf_paths = b3.apply_paths(r[2][0], (("param", "$x"),))
+        takes = [lp.ret for lp in leaf_paths if lp.ret != ("param", "$x")]
+        keeps = [lp for lp in leaf_paths if lp.ret == ("param", "$x")]
+        s.ob(r3, con3 + tag, len(takes) == 1 and len(keeps) >= 1, "array leaves are taken, non-array/scalar leaves pass through", loc3,
+             key="leaf-cases", detail=f"{len(takes)} take / {len(keeps)} keep")
+        if len(takes) != 1:
+            continue
+        refenv = s.refprog(b3, f"""
+flat = self.flatten_axes(None)
+total = flat.rewards.shape[0]
+cs = jnp.minimum(self.position, self.size)
+mask = {'jnp.arange(self.size) < cs' if scalar else '(jnp.arange(self.size) < cs[..., None]).reshape(-1)'}
+probs = mask.astype(float) / jnp.sum(mask)
+idx = jr.choice(key, total, shape=(batch_size,), replace=False, p=probs)
+out = jnp.take(x, idx, axis=0)
+""", {"self": self_, "key": ("param", "key"), "batch_size": ("param", "batch_size"), "x": ("param", "$x")})
+        s.eq(r3 if scalar else r4, con3 + tag, nz3, takes[0], refenv["out"],
+             "leaf batch == take(x, choice(key, total, (batch_size,), replace=False, p=mask/sum(mask)), axis=0), mask = arange(size) < min(position,size)"
+             + ("" if scalar else " broadcast as current_size[..., None] and flattened env-major"), loc3,
+             key="sample-formula",
+             necessary_for="only stored transitions are returned, never unwritten slots, none twice; per-environment fill levels are respected")
+        # unconditional sub-clauses
+        ch = [x for x in walk(takes[0]) if isinstance(x, tuple) and x and x[0] == "call" and x[1] == ("global", "jax.random.choice")]
+        s.ob(r3, con3 + tag, len(ch) == 1, "one index draw (one index node for every leaf)", loc3, key="one-choice", detail=str(len(ch)))
+        if len(ch) == 1:
+            kw = dict((k, v) for k, v in ch[0][3] if k)
+            s.ob(r3, con3 + tag, kw.get("replace") == FALSE, "sampling is without replacement", loc3, key="no-replacement",
+                 detail=show(kw.get("replace", NONE)), necessary_for="no transition twice within a batch")
+            s.ob(r3, con3 + tag, "p" in kw and ("attr", self_, "position") in set(walk(kw["p"])),
+                 "probabilities depend on the fill level (position)", loc3, key="probs-from-fill", detail=show(kw.get("p", NONE), maxlen=160),
+                 necessary_for="unwritten slots have probability zero")
+            s.ob(r3, con3 + tag, ("param", "$x") not in set(walk(ch[0])), "the index node does not depend on the leaf", loc3, key="index-leaf-independent")
+    if cases not in ({True, False}, {None}):
+        raise AnalysisError(f"{con3}: expected scalar and vectorised fill-level cases, got {cases}")
+    return cases
+
+
 def check(s):
     P = s.prog
     self_ = ("param", "self")
@@ -117,64 +196,11 @@ def check(s):
                 ok = ok and nzi.canon(leaf) == nzi.canon(s.ref(bi, "jnp.broadcast_to(jnp.asarray(e), (size,) + jnp.asarray(e).shape)", {"e": ("param", "$e"), "size": ("attr", ("param", "self"), "size")}))
             s.ob("C06.2", f"ReplayBuffer.__init__.{F}", ok, f"{F} is allocated as `size` copies of a leaf-shaped example from " + (f"{src}.canonical()" if src else "the policy state"), loci,
                  key=f"alloc-{F}", detail=show(v or NONE, maxlen=160))
-    # ------------------------------------------------------------------ sample
-    con3 = "ReplayBuffer.sample"
-    loc3 = s.loc("ReplayBuffer", "sample")
-    b3 = s.builder(inline={"current_size"})
-    nz3 = Normalizer(b3)
-    cases = set()
-    for p in live(s.paths(b3, "ReplayBuffer", "sample")):
-        scalar = None
-        for t, v in p.conds:
-            scalar = v
-        cases.add(scalar)
-        # no case split: one formula serves both layouts; the per-environment form subsumes the scalar one
-        # (current_size[..., None] of a scalar has shape (1,), which broadcasts to the same mask)
-        tag = "[scalar fill level]" if scalar else ("[per-environment fill levels]" if scalar is False else "[uniform formula for scalar and per-environment fill levels]")
-        r = p.ret
-        ok = isinstance(r, tuple) and r[0] == "call" and r[1] == ("global", "jax.tree.map") and len(r[2]) == 2 and isinstance(r[2][0], Closure)
-        s.ob("C06.3", con3 + tag, ok, "the batch is jax.tree.map(take, flattened buffer)", loc3, key="sample-shape", detail=show(r, maxlen=200))
-        if not ok:
-            continue
-        flat = r[2][1]
-        s.ob("C06.3", con3 + tag, flat == ("call", ("attr", self_, "flatten_axes"), (("const", None),), ()),
-             "the sampled tree is self.flatten_axes(None) (all (env, slot) axes merged)", loc3, key="flat-source", detail=show(flat, maxlen=120))
-        leaf_paths = b3.apply_paths(r[2][0], (("param", "$x"),))
-        takes = [lp.ret for lp in leaf_paths if lp.ret != ("param", "$x")]
-        keeps = [lp for lp in leaf_paths if lp.ret == ("param", "$x")]
-        s.ob("C06.3", con3 + tag, len(takes) == 1 and len(keeps) >= 1, "array leaves are taken, non-array/scalar leaves pass through", loc3,
-             key="leaf-cases", detail=f"{len(takes)} take / {len(keeps)} keep")
-        if len(takes) != 1:
-            continue
-        refenv = s.refprog(b3, f"""
-flat = self.flatten_axes(None)
-total = flat.rewards.shape[0]
-cs = jnp.minimum(self.position, self.size)
-mask = {'jnp.arange(self.size) < cs' if scalar else '(jnp.arange(self.size) < cs[..., None]).reshape(-1)'}
-probs = mask.astype(float) / jnp.sum(mask)
-idx = jr.choice(key, total, shape=(batch_size,), replace=False, p=probs)
-out = jnp.take(x, idx, axis=0)
-""", {"self": self_, "key": ("param", "key"), "batch_size": ("param", "batch_size"), "x": ("param", "$x")})
-        s.eq("C06.3" if scalar else "C06.4", con3 + tag, nz3, takes[0], refenv["out"],
-             "leaf batch == take(x, choice(key, total, (batch_size,), replace=False, p=mask/sum(mask)), axis=0), mask = arange(size) < min(position,size)"
-             + ("" if scalar else " broadcast as current_size[..., None] and flattened env-major"), loc3,
-             key="sample-formula",
-             necessary_for="only stored transitions are returned, never unwritten slots, none twice; per-environment fill levels are respected")
-        # unconditional sub-clauses
-        ch = [x for x in walk(takes[0]) if isinstance(x, tuple) and x and x[0] == "call" and x[1] == ("global", "jax.random.choice")]
-        s.ob("C06.3", con3 + tag, len(ch) == 1, "one index draw (one index node for every leaf)", loc3, key="one-choice", detail=str(len(ch)))
-        if len(ch) == 1:
-            kw = dict((k, v) for k, v in ch[0][3] if k)
-            s.ob("C06.3", con3 + tag, kw.get("replace") == FALSE, "sampling is without replacement", loc3, key="no-replacement",
-                 detail=show(kw.get("replace", NONE)), necessary_for="no transition twice within a batch")
-            s.ob("C06.3", con3 + tag, "p" in kw and ("attr", self_, "position") in set(walk(kw["p"])),
-                 "probabilities depend on the fill level (position)", loc3, key="probs-from-fill", detail=show(kw.get("p", NONE), maxlen=160),
-                 necessary_for="unwritten slots have probability zero")
-            s.ob("C06.3", con3 + tag, ("param", "$x") not in set(walk(ch[0])), "the index node does not depend on the leaf", loc3, key="index-leaf-independent")
-    if cases not in ({True, False}, {None}):
-        raise AnalysisError(f"{con3}: expected scalar and vectorised fill-level cases, got {cases}")
+    cases = check_sample(s)
     # ------------------------------------------------------------------ flatten_axes (C06.4 / C09.3)
     check_flatten(s, "C06.4")
+    from .util import no_late_binding
+    no_late_binding(s, "C06.2", ("lerax.buffer",), necessary_for="every field of a stored transition comes from the same insertion (a function value built in a loop must not read the loop variable late)")
     for r_, n in (("C06.1", 30), ("C06.2", 30), ("C06.3", 14 if cases == {True, False} else 7), ("C06.4", 3)):
         s.floor(r_, n)
 
